@@ -41,6 +41,20 @@ CHECKS = {
         "known findings (K2, K3, K11) are attributed through deviation "
         "models, everything else is a violation.",
         "DESIGN.md 3/C08"),
+    "C17": (
+        "exploration",
+        "Hypothesis configuration-product generation + differential (bytes "
+        "vs str) and absolute mode oracles",
+        "Self-consistent documents over 11 encodings x BOM x XML declaration "
+        "x meta charset x default_encoding x string/file class are rendered "
+        "from bytes and from str; outputs must be identical, free of U+FEFF, "
+        "and the XML/HTML decision (content type, implicit boolean "
+        "attributes, CR handling) and content_encoding must match what the "
+        "document announces.",
+        "Only self-consistent documents; meta-before-XML-declaration "
+        "ambiguity excluded; K8 (meta attribute order) attributed by its "
+        "trigger.",
+        "DESIGN.md 3/C17"),
     "C20": (
         "exploration",
         "Hypothesis part-list generation with constructive expected output "
